@@ -52,10 +52,21 @@ pub fn generate_enc_master_key() -> Sm9EncMasterKey {
 
 impl Sm9EncKey {
     pub fn decrypt(&self, idb: &[u8], data: &[u8]) -> Sm9Result<Vec<u8>> {
+        // 0x04 || C1 (64 bytes) || C3 (32 bytes) || C2 (1..=255 bytes)
+        if data.len() <= 65 + 32 || data.len() > 65 + 32 + 255 {
+            return Err(Sm9Error::InvalidFieldLen);
+        }
+        if data[0] != 0x04 {
+            return Err(Sm9Error::InvalidPoint);
+        }
         let c1_bytes = &data[0..65];
         let c2 = &data[(65 + 32)..];
         let c3 = &data[65..(65 + 32)];
         let c1 = Point::from_bytes(c1_bytes);
+        // B1: C1 must be a point of the curve
+        if !c1.is_on_curve() {
+            return Err(Sm9Error::NotOnCurve);
+        }
         let w = sm9_u256_pairing(&self.de, &c1);
         let w_bytes = w.to_bytes_be();
         let mut k_append: Vec<u8> = vec![];
